@@ -17,27 +17,22 @@ Proof. exact recv_drop_key. Qed.
 (* the forgery classes named by the property are instances of "not authentic" *)
 
 Lemma clear_not_authentic k h p : ~ authentic k {| d_hdr := h; d_body := Clear p |}.
-Proof. intros [q [H _]]. discriminate. Qed.
+Proof. intros [q H]. discriminate. Qed.
 
 Lemma bad_not_authentic k h : ~ authentic k {| d_hdr := h; d_body := Bad |}.
-Proof. intros [q [H _]]. discriminate. Qed.
+Proof. intros [q H]. discriminate. Qed.
 
 Lemma other_key_not_authentic k k' h sh p : k' <> k ->
   ~ authentic k {| d_hdr := h; d_body := Sealed k' sh p |}.
-Proof. intros Hk [q [H _]]. cbn in H. congruence. Qed.
+Proof. intros Hk [q H]. cbn in H. congruence. Qed.
 
 (* any rewrite of the header of a genuine datagram (re-typing as a hello, other seq / ack /
    ack bits / count / length / time / direction) *)
 Lemma tamper_hdr_not_authentic k d h' :
   authentic k d -> h' <> d_hdr d -> ~ authentic k {| d_hdr := h'; d_body := d_body d |}.
 Proof.
-  intros [p [Hb _]] Hne [q [H _]]. cbn in H. rewrite Hb in H. injection H as H _. congruence.
+  intros [p Hb] Hne [q H]. cbn in H. rewrite Hb in H. injection H as H _. congruence.
 Qed.
-
-(* truncated / extended payload under an unchanged header: the length field no longer fits *)
-Lemma length_mismatch_not_authentic k h sh p : h_len h <> len p ->
-  ~ authentic k {| d_hdr := h; d_body := Sealed k sh p |}.
-Proof. intros Hl [q [H Hq]]. cbn in *. injection H as _ <-. contradiction. Qed.
 
 (* ---------- 2. before a key exists ---------- *)
 
